@@ -32,10 +32,10 @@ Id == Traces[tid].id
 
 Say(call, clause, S) == PrintT(ToJson([verdict |-> Id, at |-> l, call |-> call, clause |-> clause,
                                        n |-> Cardinality(S), first |-> IF S = {} THEN 0 ELSE Min(S)]))
-\* for node clauses: which nodes (serial numbers, at most 6) and what the two sides show at the first one
+\* for node clauses: which nodes (serial numbers, at most 3 per class of object) and what the two sides show at the first one
 SayNodes(call, clause, S, XA, XB) ==
     LET i == Min(S)
-        few == {j \in S : Cardinality({k \in S : k < j}) < 6}
+        few == {j \in S : Cardinality({k \in S : k < j /\ XA[k].ty = XA[j].ty}) < 3}
     IN PrintT(ToJson([verdict |-> Id, at |-> l, call |-> call, clause |-> clause, n |-> Cardinality(S), first |-> i,
                       sns |-> SetToSeq(few), ty |-> XA[i].ty, nm |-> XA[i].nm, exp |-> XA[i], got |-> XB[i]]))
 \* every clause of the statement, on every node; TRUE always (verdicts are printed, the history continues)
